@@ -1,5 +1,6 @@
 import TsVerif.C04.Lemmas
 import TsVerif.C04.LemmasIter
+import TsVerif.C04.Judge
 /-!
 # C04 — Changed ranges cover every position whose ancestor chain changed
 
@@ -22,6 +23,8 @@ Clause map (theorems are about the ports in `Ranges.lean` / `Iter.lean`, which a
   admissible calls for ALL pairs of trees — needs the geometric invariants of the two cursors.)
 * "every character whose stack differs is covered"            → decided per case by the Lean judge
   (`Judge.lean`) on the real outputs; OPEN as a theorem (`changed_covers`, needs `MatchSound`, DESIGN §7).
+* "also when the included ranges changed"                      → OPEN and FALSE for the code as it is:
+  `override_span_witness` (genuine defect, known_findings/C04.json, fixes/C04-range-override-in-padding.diff)
 
 Conventions: a byte `x` is *in* a range when `start_byte ≤ x < end_byte`.  Input lists are what
 `ts_lexer_set_included_ranges` accepts (`SortedFrom 0`): starts ≥ previous end, end ≥ start; plus
@@ -98,14 +101,14 @@ the two roots start at different offsets the first loop iteration can hand over 
 `nonmonotone_witness` and notes/C04.md.)
 OPEN (`changed_sorted_bounded`): drop the hypothesis by proving it for all tree pairs — needs the
 geometric invariants of the two cursors. -/
-theorem changed_sorted_bounded_partial (al : AliasTable) (old new : Tree) (diffs : List TSRange)
-    (h : traceAdmissible [] ((changedRanges al old new diffs).main ++ (changedRanges al old new diffs).post) = true) :
-    WeakSorted (changedRanges al old new diffs).ranges ∧
-    ∀ r ∈ (changedRanges al old new diffs).ranges,
-      r.end_byte ≤ traceBound ((changedRanges al old new diffs).main ++ (changedRanges al old new diffs).post) := by
+theorem changed_sorted_bounded_partial (al : AliasTable) (fixed : Bool) (old new : Tree) (diffs : List TSRange)
+    (h : traceAdmissible [] ((changedRanges al fixed old new diffs).main ++ (changedRanges al fixed old new diffs).post) = true) :
+    WeakSorted (changedRanges al fixed old new diffs).ranges ∧
+    ∀ r ∈ (changedRanges al fixed old new diffs).ranges,
+      r.end_byte ≤ traceBound ((changedRanges al fixed old new diffs).main ++ (changedRanges al fixed old new diffs).post) := by
   have hk := foldAdd_admissible _ [] 0 (by simp [WChain]) h
-  have hr : (changedRanges al old new diffs).ranges =
-      (foldAdd [] ((changedRanges al old new diffs).main ++ (changedRanges al old new diffs).post)).reverse := by
+  have hr : (changedRanges al fixed old new diffs).ranges =
+      (foldAdd [] ((changedRanges al fixed old new diffs).main ++ (changedRanges al fixed old new diffs).post)).reverse := by
     rw [← foldAdd_append]; rfl
   rw [hr]
   refine ⟨hk.weakSorted, fun r hr' => ?_⟩
@@ -119,5 +122,38 @@ backwards, are admissible, and give the single range [2,11).  (Real histories al
 hence the conclusion is `start ≤ end`, not `start < end`.) -/
 example : let tr : List (Length × Length) := [(⟨2,⟨0,2⟩⟩, ⟨11,⟨0,11⟩⟩), (⟨11,⟨0,11⟩⟩, ⟨6,⟨0,6⟩⟩), (⟨6,⟨0,6⟩⟩, ⟨11,⟨0,11⟩⟩)]
     traceAdmissible [] tr = true ∧ (foldAdd [] tr).reverse = [⟨⟨0,2⟩,⟨0,11⟩,2,11⟩] := by decide
+
+/-! ## The coverage clause when the included ranges changed: OPEN, and false for the code as it is
+
+OPEN `changed_covers_ranges` (DESIGN §7): "a byte whose scope stacks differ and which lies in a
+subtree that `compare` matched only because of a range difference is reported".
+The walk applies the range-difference override to the span `[position, iterator_end_position(old))`.
+In a node's padding that span is just the padding, while `iterator_compare` has compared the
+*enclosing* visible nodes.  Witness (`override_span_witness`): two trees whose nodes `A` look alike
+(symbol, size, state) but differ inside, difference list `[2,3)`: byte 1 — the padding of `y`,
+inside the extra node of the new tree — has different stacks and is not reported; with the
+override applied to the compared node (`fixed := true`, fixes/C04-range-override-in-padding.diff)
+the whole of `[0,3)` is reported.  Real instance: corpus/c04.txt (fx_aliased_inlined_rules),
+known_findings/C04.json. -/
+
+def wData (sym pad sz : Nat) : NodeData :=
+  let d : NodeData := default
+  { d with symbol := sym, padding := ⟨pad, ⟨0, pad⟩⟩, size := ⟨sz, ⟨0, sz⟩⟩, visible := true, named := true, parseState := 1 }
+def wLeaf (sym pad sz : Nat) : Tree := .mk (wData sym pad sz) []
+def wNode (sym sz : Nat) (kids : List Tree) : Tree := .mk (wData sym 0 sz) kids
+/-- `R(A(x y))` with `y` preceded by one byte of padding … -/
+def wOld : Tree := wNode 1 3 [wNode 2 3 [wLeaf 3 0 1, wLeaf 4 1 1]]
+/-- … and `R(A(A(x y)))`: one more `A` around the same tokens. -/
+def wNew : Tree := wNode 1 3 [wNode 2 3 [wNode 2 3 [wLeaf 3 0 1, wLeaf 4 1 1]]]
+def wDiffs : List TSRange := [⟨⟨0,2⟩,⟨0,3⟩,2,3⟩]
+
+set_option maxRecDepth 20000 in
+/-- The negation of the coverage clause on the model of the code as it is. -/
+theorem override_span_witness :
+    (scopeStacks {} wOld 3).getD 1 [] ≠ (scopeStacks {} wNew 3).getD 1 [] ∧
+    covered (changedRanges {} false wOld wNew wDiffs).ranges 1 = false ∧
+    ((changedRanges {} false wOld wNew wDiffs).ranges.map fun r => (r.start_byte, r.end_byte)) = [(0,1),(2,3)] ∧
+    ((changedRanges {} true wOld wNew wDiffs).ranges.map fun r => (r.start_byte, r.end_byte)) = [(0,3)] := by
+  decide
 
 end TsVerif.C04
